@@ -263,3 +263,7 @@ func FloatString(name string) string {
 	}
 	return strconv.FormatFloat(f, 'g', -1, 64)
 }
+
+// Cover is a reachability witness: under the engine the run must contain a feasible path on which
+// cond can hold (otherwise the check is reported as vacuous); natively a no-op.
+func Cover(cond bool, id string) {}
